@@ -84,7 +84,9 @@ for n in (1, 2, 3):
     ws("%s.value_counts" % lab, lambda d, st, fresh, n=n: d.window(n=n, with_state=True, **_kw(st, fresh)).x.value_counts(), "window(n).value_counts")
     ws("%s.full" % lab, lambda d, st, fresh, n=n: d.window(n=n, with_state=True, **_kw(st, fresh)).full(), "window(n).full")
     ws("%s.sum[frame]" % lab, lambda d, st, fresh, n=n: d.window(n=n, with_state=True, **_kw(st, fresh))[XY].sum(), "window(n).sum")
-    WVAL += ["%s.%s" % (lab, x) for x in ("size", "value_counts", "full", "sum[frame]")]
+    # an expression built on the window (Window.map_partitions) must carry start= / with_state too
+    ws("%s.sum[x*y+1]" % lab, lambda d, st, fresh, n=n: (lambda w: (w.x * w.y + 1).sum())(d.window(n=n, with_state=True, **_kw(st, fresh))), "window(n).sum")
+    WVAL += ["%s.%s" % (lab, x) for x in ("size", "value_counts", "full", "sum[frame]", "sum[x*y+1]")]
     for op in ("sum", "count", "size", "mean", "var"):
         ws("%s.groupby(col).%s" % (lab, op),
            lambda d, st, fresh, n=n, op=op: getattr(d.window(n=n, with_state=True, **_kw(st, fresh)).groupby("k").x, op)(),
